@@ -245,20 +245,21 @@ class BasisFam(Family):
 
     def __init__(self, rng, n, name="fourier"):
         self.name = name
+        self.nf = 3 if name == "fourier" else 5
         self.t = np.linspace(0, 1, 11)
-        self.coef = np.round(rng.normal(size=(n, 3)) * 64) / 64
+        self.coef = np.round(rng.normal(size=(n, self.nf)) * 64) / 64
         self.n = n
         self.parent = self.build(range(n))
 
     def _basis(self):
         from FDApy.representation.basis import Basis
         from FDApy.representation.argvals import DenseArgvals
-        return Basis(name=self.name, n_functions=3, argvals=DenseArgvals({"input_dim_0": self.t.copy()}))
+        return Basis(name=self.name, n_functions=self.nf, argvals=DenseArgvals({"input_dim_0": self.t.copy()}))
 
     def build(self, ids):
         from FDApy.representation.functional_data import BasisFunctionalData
         ids = list(ids)
-        c = self.coef[ids].copy() if ids else np.zeros((0, 3))
+        c = self.coef[ids].copy() if ids else np.zeros((0, self.nf))
         return BasisFunctionalData(basis=self._basis(), coefficients=c)
 
     def identify(self, obj):
@@ -266,7 +267,7 @@ class BasisFam(Family):
         if not isinstance(obj, BasisFunctionalData):
             return None
         ref = self._basis()
-        ok = (np.array_equal(np.asarray(obj.basis.values), np.asarray(ref.values))
+        ok = (np.array_equal(np.asarray(obj.basis.values), np.asarray(ref.values), equal_nan=True)
               and np.array_equal(np.asarray(obj.basis.argvals["input_dim_0"]), self.t))
         c = np.asarray(obj.coefficients)
         ok = ok and c.ndim == 2
@@ -940,9 +941,11 @@ def judge(ctx):
         if agrees_def:
             rep.known_finding(fid, FINDINGS[fid], case)
             continue
+        which = ("agrees with neither the correct model nor the F9 defect model" if t_def is not None
+                 else "disagrees with the model")
         rep.violation(f"{case['family']} n_obs={case['n_obs']} {case['op']} "
-                      f"{case.get('index', case.get('pieces', case.get('subset', '')))}: implementation agrees with neither "
-                      f"the correct model nor the F9 defect model (impl: {case.get('impl', case.get('labels'))})",
+                      f"{case.get('index', case.get('pieces', case.get('subset', '')))}: implementation {which} "
+                      f"(impl: {case.get('impl', case.get('labels'))})",
                       {**case, "agrees_correct_model": ok, "agrees_defect_model": agrees_def})
 
 
